@@ -302,7 +302,7 @@ PROPS["C13"] = dict(
 PROPS["C05"] = dict(
     pkg="c05",
     subs=[
-        dict(name="closedness", test="TestClosedness", quick=20000, thorough=100000, shards=16),
+        dict(name="closedness", test="TestClosedness", quick=20000, thorough=40000, shards=16),
     ],
     technique="rapid-generated schema/data pairs against an independent membership checker written from the spec (closing groups per definition reference, close() one level, embeddings widen, patterns, ellipsis, required fields)",
     level_text="exploration: schemas built from struct literals with regular/optional/required fields over labels {a,b,c,ab}, pattern constraints ([string], [=~\"^a\"], [\"a\"|\"b\"]), '...', embeddings, close(), references to up to 2 top-level definitions and conjunctions of such terms, nested to depth 3; data structs over the same labels; verdict 's & d validates as concrete' compared with the model in both directions (no silent gain in closed structs, no rejection by open ones, optional constraints on absent fields never fail).",
